@@ -43,6 +43,14 @@ fn infra(msg: impl AsRef<str>) -> ! {
     std::process::exit(2)
 }
 
+/// The code under test got stuck / misbehaved in a way the driver cannot continue from: this is an
+/// OBSERVATION (the case is reported as `stuck "<why>"`, the remaining cases as `skipped`), not an
+/// infrastructure problem.
+struct Stuck(String);
+fn stuck(msg: impl AsRef<str>) -> ! {
+    std::panic::panic_any(Stuck(msg.as_ref().to_string()))
+}
+
 fn debug() -> bool {
     std::env::var_os("RV_NET_DEBUG").is_some()
 }
@@ -396,6 +404,10 @@ type RecvLog = Arc<Mutex<Vec<RecvRec>>>;
 struct Probe {
     idx: u64,
     log: RecvLog,
+    /// set at the very beginning of pre_start (the cell exists and is advertised from then on)
+    slot: Arc<Mutex<Option<ActorCell>>>,
+    /// a slow pre_start: it completes only when the driver adds a permit
+    gate: Option<Arc<tokio::sync::Semaphore>>,
 }
 
 struct ProbeState {
@@ -407,7 +419,13 @@ impl Actor for Probe {
     type State = ProbeState;
     type Arguments = ();
 
-    async fn pre_start(&self, _: ActorRef<ProbeMsg>, _: ()) -> Result<ProbeState, ActorProcessingErr> {
+    async fn pre_start(&self, myself: ActorRef<ProbeMsg>, _: ()) -> Result<ProbeState, ActorProcessingErr> {
+        *self.slot.lock().unwrap() = Some(myself.get_cell());
+        if let Some(g) = &self.gate {
+            if let Ok(p) = g.acquire().await {
+                p.forget();
+            }
+        }
         Ok(ProbeState { held: Vec::new() })
     }
 
@@ -517,6 +535,7 @@ struct ProbeInfo {
     cell: ActorCell,
     pid: u64,
     handle: JoinHandle<()>,
+    gate: Option<Arc<tokio::sync::Semaphore>>,
 }
 
 struct CallRec {
@@ -557,7 +576,7 @@ async fn wait_until<F: FnMut() -> bool>(what: &str, mut cond: F) {
             return;
         }
         if tokio::time::Instant::now() >= deadline {
-            infra(format!("timed out (30 virtual s) waiting for: {what}"));
+            stuck(format!("timed out (30 virtual s) waiting for: {what}"));
         }
         tokio::time::sleep(Duration::from_millis(1)).await;
     }
@@ -566,13 +585,21 @@ async fn wait_until<F: FnMut() -> bool>(what: &str, mut cond: F) {
 async fn sessions_of(n: &ActorRef<NodeServerMessage>) -> HashMap<u64, NodeServerSessionInformation> {
     match ractor::call_t!(n, NodeServerMessage::GetSessions, 1000) {
         Ok(m) => m,
-        Err(e) => infra(format!("GetSessions failed: {e}")),
+        Err(e) => stuck(format!("GetSessions failed: {e}")),
     }
 }
 
 impl World {
-    fn gname(&self, g: u64) -> String {
-        format!("c{}g{}", self.case, g)
+    /// group key k = 1000 * scope + g; scope 0 is the default scope
+    fn gname(&self, k: u64) -> String {
+        format!("c{}g{}", self.case, k % 1000)
+    }
+    fn sname(&self, k: u64) -> String {
+        if k / 1000 == 0 {
+            ractor::pg::DEFAULT_SCOPE.to_string()
+        } else {
+            format!("c{}s{}", self.case, k / 1000)
+        }
     }
 
     fn probe(&self, i: u64) -> &ProbeInfo {
@@ -766,7 +793,7 @@ impl World {
     }
 
     fn members(&self, g: u64) -> Vec<ActorCell> {
-        ractor::pg::get_members(&self.gname(g))
+        ractor::pg::get_scoped_members(&self.sname(g), &self.gname(g))
     }
 
     fn obs(&mut self) {
@@ -844,11 +871,38 @@ impl World {
                 if self.probes.contains_key(&i) {
                     infra(format!("probe {i} spawned twice"));
                 }
-                let (r, h) = match Actor::spawn(None, Probe { idx: i, log: self.log.clone() }, ()).await {
+                let slot = Arc::new(Mutex::new(None));
+                let (r, h) = match Actor::spawn(None, Probe { idx: i, log: self.log.clone(), slot, gate: None }, ()).await {
                     Ok(x) => x,
                     Err(e) => infra(format!("probe spawn failed: {e}")),
                 };
-                self.probes.insert(i, ProbeInfo { pid: r.get_id().pid(), cell: r.get_cell(), handle: h });
+                self.probes.insert(i, ProbeInfo { pid: r.get_id().pid(), cell: r.get_cell(), handle: h, gate: None });
+            }
+            "spawnslow" => {
+                // the actor exists (and is advertised) but stays in pre_start until `release <i>`
+                need(2);
+                let i = u(w[1]);
+                if self.probes.contains_key(&i) {
+                    infra(format!("probe {i} spawned twice"));
+                }
+                let slot: Arc<Mutex<Option<ActorCell>>> = Arc::new(Mutex::new(None));
+                let gate = Arc::new(tokio::sync::Semaphore::new(0));
+                let probe = Probe { idx: i, log: self.log.clone(), slot: slot.clone(), gate: Some(gate.clone()) };
+                let handle = tokio::spawn(async move {
+                    if let Ok((_r, h)) = Actor::spawn(None, probe, ()).await {
+                        let _ = h.await;
+                    }
+                });
+                let s2 = slot.clone();
+                wait_until("the slow probe to enter pre_start", move || s2.lock().unwrap().is_some()).await;
+                let cell = slot.lock().unwrap().clone().unwrap();
+                self.probes.insert(i, ProbeInfo { pid: cell.get_id().pid(), cell, handle, gate: Some(gate) });
+            }
+            "release" => {
+                need(2);
+                if let Some(g) = &self.probe(u(w[1])).gate {
+                    g.add_permits(1);
+                }
             }
             "connect" => {
                 need(1);
@@ -860,9 +914,9 @@ impl World {
                 self.groups.insert(g);
                 let cell = self.probe(i).cell.clone();
                 if w[0] == "join" {
-                    ractor::pg::join(self.gname(g), vec![cell]);
+                    ractor::pg::join_scoped(self.sname(g), self.gname(g), vec![cell]);
                 } else {
-                    ractor::pg::leave(self.gname(g), vec![cell]);
+                    ractor::pg::leave_scoped(self.sname(g), self.gname(g), vec![cell]);
                 }
             }
             "exit" => {
@@ -936,7 +990,7 @@ impl World {
 async fn join_bounded(what: &str, h: JoinHandle<()>) {
     match tokio::time::timeout(Duration::from_secs(10), h).await {
         Ok(_) => {}
-        Err(_) => infra(format!("{what} did not stop within 10 virtual s")),
+        Err(_) => stuck(format!("{what} did not stop within 10 virtual s")),
     }
 }
 
@@ -1061,6 +1115,9 @@ async fn run_case(case: u64, line: String) -> String {
     }
     let probes = std::mem::take(&mut w.probes);
     for p in probes.values() {
+        if let Some(g) = &p.gate {
+            g.add_permits(1);
+        }
         p.cell.stop(None);
     }
     for (i, p) in probes {
@@ -1073,11 +1130,13 @@ async fn run_case(case: u64, line: String) -> String {
         .map(|c| c.get_id().to_string())
         .collect();
     if !left.is_empty() {
-        infra(format!("remotable actors leaked out of case {case}: {left:?}"));
+        stuck(format!("remotable actors survive the end of case {case}: {left:?}"));
     }
-    let groups = ractor::pg::which_groups();
-    if !groups.is_empty() {
-        infra(format!("pg groups leaked out of case {case}: {groups:?}"));
+    // Members that are still enrolled now are stopped actors that never left their groups (that is
+    // judged on the snapshots); remove them so that the next case starts from a clean pg.
+    for key in ractor::pg::which_scopes_and_groups() {
+        let ms = ractor::pg::get_scoped_members(&key.get_scope(), &key.get_group());
+        ractor::pg::leave_scoped(key.get_scope(), key.get_group(), ms);
     }
     out
 }
@@ -1088,7 +1147,9 @@ fn main() {
         PANICKED.store(true, Ordering::SeqCst);
         default_hook(info);
     }));
-    for (case, line) in stdin_lines().into_iter().enumerate() {
+    let lines = stdin_lines();
+    let remaining = lines.len();
+    for (case, line) in lines.into_iter().enumerate() {
         if debug() {
             eprintln!("case {case}: {line}");
         }
@@ -1100,14 +1161,30 @@ fn main() {
             .unwrap_or_else(|e| infra(format!("runtime: {e}")));
         let res = std::panic::catch_unwind(std::panic::AssertUnwindSafe(|| rt.block_on(run_case(case as u64, line.clone()))));
         let out = match res {
-            Ok(o) => o,
-            Err(_) => infra(format!("driver panicked in case {case}: {line}")),
+            Ok(o) if !PANICKED.load(Ordering::SeqCst) => o,
+            Ok(_) => "stuck \"a panic occurred in some task during the case\"".to_string(),
+            Err(p) => match p.downcast_ref::<Stuck>() {
+                Some(s) => format!("stuck \"{}\"", s.0.replace('"', "'")),
+                None => "stuck \"the driver panicked\"".to_string(),
+            },
         };
-        drop(rt);
-        if PANICKED.load(Ordering::SeqCst) {
-            infra(format!("a panic occurred somewhere during case {case}: {line}"));
+        // after a case that got stuck the process-global registries are not trustworthy: the rest
+        // of the batch is not evaluated
+        let bad = out.starts_with("stuck");
+        if !bad {
+            drop(rt);
+        } else {
+            std::mem::forget(rt);
         }
         println!("{out}");
+        if bad {
+            if let Some(n) = remaining.checked_sub(case + 1) {
+                for _ in 0..n {
+                    println!("skipped");
+                }
+            }
+            std::process::exit(0);
+        }
         if debug() {
             eprintln!("  wall {:?}", t0.elapsed()); // diagnostics only, never used for decisions
         }
